@@ -382,6 +382,18 @@ def t3(chk, prog, only_funcs=None):
             if ab:
                 arg_bases.add(ab)
             if (lc is None) != (lj is None):
+                # a loop of a form the induction recogniser does not read (`i = n; while (i > 0) { i--; join(t[i]); }`) is not "no loop"
+                def in_other_loop(node, idx_):
+                    for lp in flow.enclosing_loops(pm, node):
+                        if flow.induction(lp) is None and (set(flow.assigned_paths(lp)) & set(idx_.atoms())):
+                            return lp
+                    return None
+                odd = in_other_loop(jnode, jidx) if lj is None else in_other_loop(call, idx)
+                if odd is not None:
+                    chk.broke('T3: %s: the handles of %s are %s in a loop at %s whose counting form is not understood' % (
+                        f.name, base.split('#')[0], 'joined' if lj is None else 'created', f.unit.where(odd)))
+                    ok = False
+                    continue
                 bad('loop-shape', 'create and join of %s are not both in a counted loop' % base.split('#')[0], call)
                 ok = False
                 continue
@@ -802,4 +814,74 @@ def t7(chk, prog):
                                       'executes whole batches of that many workers, so for a count that does not divide %d it runs extra iterations '
                                       'and the averaged predictions (q2 of the scrambled models) depend on the number of threads requested'
                                       % (f.name, it, f.unit.text(a[6])[:20], it)))
+    return n
+
+
+def t8(chk, prog):
+    """a worker that seeds the generator with srand_ is written to run on a thread of its own: the generator state is per thread, so when the
+    dispatcher calls such an entry function directly (to "save a thread") the call reseeds the *caller's* stream and every later draw of the
+    calling thread depends on how the work was dispatched."""
+    R = chk.rule('T8.entry-only-as-thread', 'every thread entry function that (transitively) calls srand_ is started only through pthread_create: '
+                 'no direct call and no call through a function pointer that may hold it')
+    seeding = {}
+    for (_, _, ent) in prog.thread_creates():
+        if ent is None or ent in seeding:
+            continue
+        ef = prog.funcs.get(ent)
+        if ef is None or ef.body is None:
+            continue
+        seeding[ent] = any(cn == 'srand_' for g in prog.reach([ef]) for cn, _ in g.calls)
+    # entry functions started through a function pointer: the functions ever stored in a pointer that reaches pthread_create
+    n = 0
+    calls_of = {e: [] for e, v in seeding.items() if v}
+    for f in prog.all_funcs():
+        if f.body is None:
+            continue
+        ptr_targets = {}
+        for x in walk(f.body):
+            tgt, rhs = None, None
+            if x.get('kind') == 'VarDecl' and kids(x) and '(*)' in x.get('type', {}).get('qualType', ''):
+                tgt, rhs = x.get('id'), kids(x)[-1]
+            elif x.get('kind') == 'BinaryOperator' and x.get('opcode') == '=' and fe.ref_id(kids(x)[0]) and \
+                    '(*)' in strip(kids(x)[0]).get('type', {}).get('qualType', ''):
+                tgt, rhs = fe.ref_id(kids(x)[0]), kids(x)[1]
+            if tgt is None:
+                continue
+            r = strip(rhs)
+            if r.get('kind') == 'UnaryOperator' and r.get('opcode') == '&':
+                r = strip(kids(r)[0])
+            nm = r['referencedDecl'].get('name') if r.get('kind') == 'DeclRefExpr' and r['referencedDecl'].get('kind') == 'FunctionDecl' else None
+            if nm:
+                ptr_targets.setdefault(tgt, set()).add(nm)
+                fn = prog.funcs.get(nm)
+                if nm not in seeding and fn is not None and fn.body is not None:
+                    seeding[nm] = any(cn == 'srand_' for g in prog.reach([fn]) for cn, _ in g.calls)
+                    if seeding[nm]:
+                        calls_of.setdefault(nm, [])
+        for x in walk(f.body):
+            if x.get('kind') != 'CallExpr':
+                continue
+            cn = callee_name(x)
+            if cn in calls_of:
+                calls_of[cn].append((f, x, 'directly'))
+                continue
+            ce = strip(kids(x)[0]) if kids(x) else {}
+            while ce.get('kind') in ('ParenExpr', 'UnaryOperator') and kids(ce):
+                ce = strip(kids(ce)[0])
+            if ce.get('kind') == 'DeclRefExpr' and ce['referencedDecl'].get('kind') in ('VarDecl', 'ParmVarDecl'):
+                for nm in sorted(ptr_targets.get(ce['referencedDecl']['id'], ())):
+                    if seeding.get(nm):
+                        calls_of.setdefault(nm, []).append((f, x, 'through the function pointer `%s`' % ce['referencedDecl'].get('name')))
+    for ent in sorted(calls_of):
+        ef = prog.funcs.get(ent)
+        n += 1
+        if not calls_of[ent]:
+            chk.instance(R, '%s %s: seeds its generator; started only by pthread_create' % (ef.unit.where(ef.body), ent))
+            continue
+        for (f, x, how) in calls_of[ent]:
+            chk.instance(R, '%s %s calls %s %s' % (f.unit.where(x), f.name, ent, how), 'refuted')
+            chk.violation(Finding('T8.entry-only-as-thread', rel(f.file), f.name, 'inline:' + ent, f.unit.where(x),
+                                  '%s calls the thread entry function %s %s: %s calls srand_, and the generator state is per thread, so run inline it '
+                                  'reseeds the stream of the calling thread -- every later random draw of the caller (the next fold assignment, the next '
+                                  'batch) then depends on which shares were run inline, i.e. on the thread count' % (f.name, ent, how, ent)))
     return n
